@@ -7,6 +7,17 @@ TB = ("Coq 8.16.1 kernel; axioms as printed by Print Assumptions (allow-list in 
       "tied to /repo only by that correspondence (DESIGN.md section 8)")
 
 CHECKS = {
+ "C10": dict(
+   text="Machine-checked theorems about the model of recreate_variables / get_rule / make_query (all terms, goals, rules, "
+        "knowledge bases, counters): a fetched clause equals the stored one once ids are erased (atoms, numbers, list nodes "
+        "including [], counts, tail markers and goal structure untouched; a renamed well-formed list is a well-formed list of "
+        "the renamed elements), occurrences of one name carry one id and different names different ids, and every id lies "
+        "strictly above the counter before the fetch and at most the counter after it. That no such id is in use elsewhere in "
+        "the current search is the solver invariant ids_below_counter, proved with the solver model (C01/C22). Tied to the "
+        "code by differential execution on raw structure; the three clauses are also checked on the implementation's own "
+        "results (oracle).", ref="7/C10",
+   technique="Coq proof (Properties/C10.v, Proofs/RenameProofs.v) + model-vs-implementation correspondence via extraction + specification oracle on the implementation's results"),
+
  "C15": dict(
    text="Machine-checked theorems about the list builders (all element sequences, any length): make_list_of_terms (the builder "
         "behind append, include and exclude) yields a well-formed node chain whose elements are exactly the given terms - a "
